@@ -280,6 +280,7 @@ class Env:
         self.fn = fn  # FunctionInfo of the activation (None for module level)
         self.self_cls = None  # class in which the running method is defined (for super())
         self.caller_owned: set[str] = set()  # parameters still holding the container object the caller passed (not re-assigned since)
+        self.mutated_params: set[str] = set()  # ... of which these were changed in place: the final value is written back to the caller's l-value
 
     def lookup(self, name: str):
         e = self
@@ -296,6 +297,7 @@ class Env:
         memo[id(self)] = n
         n.self_cls = self.self_cls
         n.caller_owned = set(self.caller_owned)
+        n.mutated_params = set(self.mutated_params)
         n.parent = self.parent.clone(memo) if self.parent is not None else None
         n.vars = {k: clone_value(v, memo) for k, v in self.vars.items()}
         return n
